@@ -69,7 +69,9 @@ func encRun(r *run, prop string, c *encCase) {
 	if c.caller {
 		fl |= slog.Lcaller
 	}
-	slog.SetFlags(fl | slog.LnoInterrupt)
+	if slog.GetFlags() != fl|slog.LnoInterrupt { // no setter call when the flag word is in force already (e.g. restored by a scope)
+		slog.SetFlags(fl | slog.LnoInterrupt)
+	}
 	slog.SetLevelOutputWidth(c.tagW)
 	slog.SetMessageMinimalWidth(c.minW)
 	if (len(c.msg)+c.lvl)%3 == 0 {
